@@ -2,7 +2,7 @@
 
 //@@ octo-squirrel/src/config.rs:18-30  enum Mode  sha=957f62c1c01193ba
 #[derive(Clone, Copy, PartialEq)]
-enum cfg__Mode {
+pub enum cfg__Mode {
     Tcp,
     Udp,
     TcpAndUdp,
@@ -45,7 +45,7 @@ impl cfg__Mode {
 
 //@@ octo-squirrel/src/protocol.rs:14-20  enum Protocol  sha=f4fd8332bf4085d1
 #[derive(PartialEq, Clone, Copy)]
-enum Protocol {
+pub enum Protocol {
     Shadowsocks,
     VMess,
     Trojan,
@@ -67,7 +67,7 @@ spec fn serde_other__Protocol(v: Protocol) -> bool {
 
 //@@ octo-squirrel/src/codec/aead.rs:124-142  enum CipherKind  sha=0afd87d0c4335287
 #[derive(Default, Clone, Copy, PartialEq, Eq)]
-enum cfgk__CipherKind {
+pub enum cfgk__CipherKind {
     Aes128Gcm,
     Aes256Gcm,
     ChaCha20Poly1305,
